@@ -217,6 +217,19 @@ theorem C20_lab_grey_bound (s : ℝ) (hs0 : 0 ≤ s) (hs1 : s ≤ 1) :
   · rw [← srgbR_zero]; exact srgbR_strictMono.monotone h0
   · rw [← srgbR_255]; exact srgbR_strictMono.monotone h1
 
+/-- **C20 (rgb2lab of a grey pixel, end to end over the reals).** For every grey `(v, v, v)` with
+`0 ≤ v ≤ 255` (real, in particular every 8-bit value) the model's `rgb2lab = xyz2lab ∘ rgb2xyz` over the
+reals returns `L* = 116 f(T(v)) − 16`, `0 ≤ a* ≤ 500/95047` and `−3400/326649 ≤ b* ≤ 0`; at white
+`T(255) = 1`, `f(1) = 1`, so `L* = 100`. -/
+theorem C20_rgb2lab_grey (v : ℝ) (h0 : 0 ≤ v) (h1 : v ≤ 255) :
+    (∃ a b : ℝ, xyz2labR (rgb2xyzR [v, v, v]) = [116 * labFR (srgbR v) - 16, a, b] ∧
+      0 ≤ a ∧ a ≤ 500 / 95047 ∧ -(3400 / 326649) ≤ b ∧ b ≤ 0) ∧
+    116 * labFR (srgbR 255) - 16 = 100 := by
+  have hs0 : 0 ≤ srgbR v := by rw [← srgbR_zero]; exact srgbR_strictMono.monotone h0
+  have hs1 : srgbR v ≤ 1 := by rw [← srgbR_255]; exact srgbR_strictMono.monotone h1
+  refine ⟨lab_grey_bound hs0 hs1, ?_⟩
+  rw [srgbR_255, labFR_one]; norm_num
+
 /-! non-vacuity -/
 example : stretchList [(3 : Rat), 7, 5, 3] (-5) 100 = [-5, 100, 95 / 2, -5] := by
   norm_num [stretchList, minL, maxL, stretchCore, capHi]
